@@ -219,6 +219,13 @@ def stage_and_check(run, AH, truth, flags, tracers, chunk, n_chunks, desc):
         # The constructor also builds 100^3 and 100^4-bin mass-function histograms (0.8 GB, ~2 s) that no
         # property is about: for most cases the abacus_hod module sees a numpy whose histogramdd is a
         # stub; every 8th case runs the constructor completely unmodified.
+        import numba as _nb
+
+        # the thread count a previous run_hod / compute_ngal call left in force (they set it and never restore it)
+        nthr_in_force = [_nb.config.NUMBA_NUM_THREADS, 2, 5, 1, 16, 3][desc['case'] % 6]
+        desc['numba_threads_in_force'] = nthr_in_force
+        _nb.set_num_threads(min(nthr_in_force, _nb.config.NUMBA_NUM_THREADS))
+        obj = None
         try:
             if desc['case'] % 8 != 0:
                 with stub_histogram(AH):
@@ -226,9 +233,14 @@ def stage_and_check(run, AH, truth, flags, tracers, chunk, n_chunks, desc):
             else:
                 run.count('unmodified_constructor_runs')
                 obj = AH.AbacusHOD(sim_params, HOD, chunk=chunk, n_chunks=n_chunks)
+        except Exception as e:  # every generated directory is a valid one: staging must not fail on it
+            run.violation('staging-raises-' + type(e).__name__, dict(error=f'{type(e).__name__}: {e}'[:200], **desc))
         finally:
+            _nb.set_num_threads(_nb.config.NUMBA_NUM_THREADS)
             logging.disable(logging.NOTSET)
             logging.getLogger('AbacusHOD').setLevel(logging.WARNING)
+    if obj is None:
+        return True
     hd, pd = obj.halo_data, obj.particle_data
     nslab = len(truth['slabs'])
     n_jump = int(np.ceil(nslab / n_chunks))
